@@ -80,6 +80,7 @@ static std::atomic<int> main_go{ 0 };
 static int g_mode = 0;                  // 0 off, 1 sequential (count only), 2 concurrent
 static int g_cur = -1, g_nthreads = 0;
 static uint64_t g_step = 0, g_seq_steps = 0;
+static size_t g_script_i = 0; static uint64_t g_script_n = 0; static bool g_script_op_done = false;
 static const Config *g_cfg = nullptr;
 static Result *g_res = nullptr;
 static sim_rng g_srng;
@@ -223,6 +224,20 @@ static int pick_other(int me, bool forced) {
         for (int i = 0; i < n; i++) if (TH[cand[i]].prio > bp) { bp = TH[cand[i]].prio; best = cand[i]; }
         return best;
     }
+    case 5: {   // scripted
+        auto runnable = [&](int t) { return t >= 0 && t < g_nthreads && t != me && TH[t].state == ST_RUNNABLE; };
+        auto advance = [&]() -> int {      // next script entry whose thread can run; the running thread may continue if it is its own turn again
+            while (++g_script_i < c.script.size()) { g_script_n = 0; int t = c.script[g_script_i].tid; if (t == me && !forced) return me; if (runnable(t)) return t; }
+            return forced ? cand[0] : me;
+        };
+        if (forced) return advance();
+        if (g_script_i >= c.script.size()) return me;
+        const ScriptStep &st = c.script[g_script_i];
+        if (st.tid != me) return runnable(st.tid) ? st.tid : me;
+        if (st.kind == 0 && ++g_script_n >= st.n) return advance();
+        if (st.kind == 1 && g_script_op_done) { g_script_op_done = false; if (++g_script_n >= st.n) return advance(); }
+        return me;
+    }
     case 4:     // targeted: switch often around library statics / atomics / sync ops, rarely elsewhere
         if (forced || sim_below(&g_srng, g_hot ? 2 : c.den) == 0) return cand[sim_below(&g_srng, (uint64_t)n)];
         return me;
@@ -290,6 +305,13 @@ static void unblock_waiters(const void *obj) {
     for (int i = 0; i < g_nthreads; i++) if (TH[i].state == ST_BLOCKED && TH[i].blocked_on == obj) { TH[i].state = ST_RUNNABLE; TH[i].blocked_on = nullptr; }
 }
 // harness-level "this is done, you may take the object" flag: a release by the poster, an acquire by whoever waited
+void op_boundary() {
+    if (g_mode != 2 || t_tid < 0 || !g_cfg || !g_cfg->op_boundaries) return;
+    RtGuard rg_;
+    g_script_op_done = true;
+    sched_point();
+    g_script_op_done = false;
+}
 void post(const void *k) {
     if (g_mode != 2 || t_tid < 0) return;
     RtGuard rg_;
@@ -452,7 +474,7 @@ void run_concurrent(const Config &cfg, thread_fn fn, void *arg, Result &out) {
     note_main_thread();
     g_cfg = &cfg; g_res = &out; g_fn = fn; g_arg = arg; g_nthreads = cfg.nthreads;
     out.interleaving_hash = SIM_FNV_INIT;
-    g_step = 0; g_replay_i = 0; g_quantum_left = cfg.quantum; g_stop_all = false;
+    g_step = 0; g_replay_i = 0; g_quantum_left = cfg.quantum; g_stop_all = false; g_script_i = 0; g_script_n = 0; g_script_op_done = false;
     g_srng = sim_derive(cfg.sched_seed, 0x5c4ed);
     g_gen++; g_cells_used = 0;
     if (g_gen == 0) { memset(g_cells, 0, sizeof(Cell) * NCELL); g_gen = 1; }
@@ -490,6 +512,7 @@ void run_concurrent(const Config &cfg, thread_fn fn, void *arg, Result &out) {
     // the scheduler picks who starts
     int first = 0;
     if (cfg.policy == 0) { if (!cfg.replay.empty() && cfg.replay[0].at == 0 && cfg.replay[0].to < cfg.nthreads) { first = cfg.replay[0].to; g_replay_i = 1; } }
+    else if (cfg.policy == 5) { first = (!cfg.script.empty() && cfg.script[0].tid < cfg.nthreads) ? cfg.script[0].tid : 0; }
     else if (cfg.policy == 3) { long bp = LONG_MIN; for (int i = 0; i < cfg.nthreads; i++) if (TH[i].prio > bp) { bp = TH[i].prio; first = i; } }
     else first = (int)sim_below(&g_srng, (uint64_t)cfg.nthreads);
     out.switches.push_back(Switch{ 0, first, 0 });
